@@ -55,7 +55,8 @@ From ZV Require Import Model.TrySend Model.RrSend Proofs.RrSendProofs.
     held by a guard that re-queues it when dropped, created before the first await, disarmed when the peer is gone or
     its write failed *)
 Theorem C10_gen_structure :
-  Gen.Src.rr_guard_requeues_on_drop = 1 /\ Gen.Src.rr_guard_before_await = 1 /\ Gen.Src.rr_guard_disarmed_on_error = 1.
+  Gen.Src.rr_guard_requeues_on_drop = 1 /\ Gen.Src.rr_guard_before_await = 1 /\ Gen.Src.rr_guard_disarmed_on_error = 1 /\
+  Gen.Src.rr_queue_holds_identity_once = 1 /\ Gen.Src.rr_backends_use_that_queue = 1.
 Proof. repeat split; reflexivity. Qed.
 Print Assumptions C10_gen_structure.
 
@@ -118,6 +119,31 @@ Theorem C10_faulty_full_round : forall ms st, all_accepting st -> NoDup (r_rr st
   fst (rrun st (map RSend ms)) = map ROk (r_rr st) /\ r_rr (snd (rrun st (map RSend ms))) = r_rr st.
 Proof. exact rr_full_round. Qed.
 Print Assumptions C10_faulty_full_round.
+
+(** * Every reachable state - any history of attaches (including a peer that re-joins under its identity while an entry of
+      that identity is still queued), losses, script changes and sends *)
+(** the rotation never holds an identity twice, nor does the table, and every peer of the table is queued *)
+Theorem C10_faulty_reachable_inv : forall ops rs st, rrun rstate0 ops = (rs, st) ->
+  NoDup (r_rr st) /\ NoDup (map p_id (r_peers st)) /\ (forall p, In p (r_peers st) -> In (p_id p) (r_rr st)).
+Proof. exact rr_reachable_inv. Qed.
+Print Assumptions C10_faulty_reachable_inv.
+
+(** a peer that re-joins while an entry of its identity is still queued takes that entry over *)
+Theorem C10_faulty_rejoin_takes_over : forall st k, In k (r_rr st) ->
+  r_rr (snd (rstep st (RAttach k))) = r_rr st /\ pget k (r_peers (snd (rstep st (RAttach k)))) <> None.
+Proof. exact rejoin_takes_over_entry. Qed.
+Print Assumptions C10_faulty_rejoin_takes_over.
+
+(** strict rotation in EVERY reachable state: with n peers whose connections accept, n consecutive sends reach the n peers,
+    each exactly once, in queue order (stale entries are skipped) *)
+Theorem C10_faulty_strict_rotation : forall ops rs st ms, rrun rstate0 ops = (rs, st) ->
+  all_accepting st -> length ms = length (r_peers st) ->
+  Forall (fun m => lenN (encode_frames m) < 2 ^ 63) ms ->
+  let live := filter (is_live st) (r_rr st) in
+  fst (rrun st (map RSend ms)) = map ROk live /\ NoDup live /\
+  (forall p, In p (r_peers st) -> In (p_id p) live) /\ length live = length (r_peers st).
+Proof. exact rr_strict_rotation. Qed.
+Print Assumptions C10_faulty_strict_rotation.
 
 (** every history of attaches, losses, script changes and sends: what is on connection k's wire is a prefix of the
     concatenation of exactly the messages the loop gave to k, in order - and all of it when no send to k failed or stalled *)
